@@ -204,44 +204,6 @@ func vfCheck[C any](t *testing.T, prop string, gen func(*rapid.T) C, run func(C,
 		return &vfCtx{classes: map[string]int{}, counters: map[string]int64{}, activeAttr: active, tier: tier}
 	}
 
-	// --- replay mode: run one saved case, no library involved -------------------------
-	if rp := os.Getenv("VERIF_REPLAY"); rp != "" {
-		res.Mode = "replay"
-		data, err := os.ReadFile(rp)
-		if err != nil {
-			t.Fatalf("replay file: %v", err)
-		}
-		var wrapper struct {
-			Property string          `json:"property"`
-			Case     json.RawMessage `json:"case"`
-		}
-		if err := json.Unmarshal(data, &wrapper); err != nil || len(wrapper.Case) == 0 {
-			wrapper.Case = data
-		}
-		var c C
-		if err := json.Unmarshal(wrapper.Case, &c); err != nil {
-			t.Fatalf("replay case does not decode: %v", err)
-		}
-		ctx := newCtx()
-		ctx.replay = true
-		reps := vfEnvInt("VERIF_REPLAY_REPS", 1)
-		for i := 0; i < reps; i++ {
-			v := vfSafe(func() *vfViolation { return run(c, ctx) })
-			res.Evaluations++
-			if v != nil {
-				res.Violation = v
-				res.FailCase = wrapper.Case
-				fmt.Printf("REPLAY-FAIL property=%s %s\n", prop, strings.SplitN(v.Msg, "\n", 2)[0])
-				break
-			}
-		}
-		res.Completed = true
-		if res.Violation != nil {
-			t.Fail()
-		}
-		return
-	}
-
 	// --- open known findings: replay each, switch on its exclusion if it still fails ---
 	for _, f := range vfLoadFindings(prop) {
 		if f.Status != "open" {
@@ -270,6 +232,48 @@ func vfCheck[C any](t *testing.T, prop string, gen func(*rapid.T) C, run func(C,
 				active[f.Attribution] = true
 			}
 		}
+	}
+
+	// --- replay mode: run one saved case, no library involved -------------------------
+	if rp := os.Getenv("VERIF_REPLAY"); rp != "" {
+		res.Mode = "replay"
+		data, err := os.ReadFile(rp)
+		if err != nil {
+			t.Fatalf("replay file: %v", err)
+		}
+		var wrapper struct {
+			Property string          `json:"property"`
+			Case     json.RawMessage `json:"case"`
+		}
+		if err := json.Unmarshal(data, &wrapper); err != nil || len(wrapper.Case) == 0 {
+			wrapper.Case = data
+		}
+		var c C
+		if err := json.Unmarshal(wrapper.Case, &c); err != nil {
+			t.Fatalf("replay case does not decode: %v", err)
+		}
+		ctx := newCtx()
+		ctx.replay = true
+		reps := vfEnvInt("VERIF_REPLAY_REPS", 1)
+		for i := 0; i < reps; i++ {
+			v := vfSafe(func() *vfViolation { return run(c, ctx) })
+			res.Evaluations++
+			if v != nil && v.Attr != "" && active[v.Attr] {
+				res.Excluded++
+				v = nil
+			}
+			if v != nil {
+				res.Violation = v
+				res.FailCase = wrapper.Case
+				fmt.Printf("REPLAY-FAIL property=%s %s\n", prop, strings.SplitN(v.Msg, "\n", 2)[0])
+				break
+			}
+		}
+		res.Completed = true
+		if res.Violation != nil {
+			t.Fail()
+		}
+		return
 	}
 
 	// --- search -------------------------------------------------------------------
